@@ -227,6 +227,7 @@ def pairwise(cases, rnd):
 
 def run(rep, tier, seed, selftest):
     selftest = selftest or tier == "thorough"
+    state0 = pc.repo_state()
     penne = pc.build_penne()
     if subprocess.run(["which", "lli"], stdout=subprocess.PIPE).returncode != 0:
         raise common.ToolError("lli not found on PATH")
@@ -280,6 +281,7 @@ def run(rep, tier, seed, selftest):
     if strict_silent:
         rep.note_drift("%d --silent configurations print line breaks on stdout (main() prints two after a failure)" % strict_silent)
     shutil.rmtree(root, ignore_errors=True)
+    pc.assert_same_tree(state0)
     findings.flush(rep)
     for sg, n_ in sorted(findings.counts().items(), key=lambda x: -x[1]):
         log("[findings] %5d x %s" % (n_, sg))
